@@ -175,7 +175,7 @@ def impl_assembly_rot(case):
 # ------------------------------------------------------------ driver side
 
 def c_opt(s):
-    return "None" if s is None else '(Some "%s")' % s
+    return "(@None string)" if s is None else '(Some "%s")' % s
 
 
 def c_obs(o):
